@@ -443,6 +443,7 @@ func (e *Engine) execBranch(s *ast.BranchStmt, st *State) *State {
 				continue
 			}
 			if label == "" || lf.label == label {
+				st.tag = e.pos(s.Pos())
 				lf.continues = append(lf.continues, st)
 				return nil
 			}
@@ -495,6 +496,7 @@ func (e *Engine) execSwitch(s *ast.SwitchStmt, st *State, label string) *State {
 	var outs []*State
 	rest := st // state in which no previous case matched
 	var deflt *ast.CaseClause
+	var ft *State // state falling through from the previous clause
 	clauses := s.Body.List
 	for ci, cs := range clauses {
 		cc := cs.(*ast.CaseClause)
@@ -523,12 +525,43 @@ func (e *Engine) execSwitch(s *ast.SwitchStmt, st *State, label string) *State {
 			e.assumes = append(e.assumes, eq(b, rest.pc))
 			rest.pc = b
 		}
-		outs = append(outs, e.execCaseBody(cc, clauses, ci, s1))
+		_ = ci
+		// a preceding clause that ended in fallthrough continues here: merge it in so the body is executed once
+		entry := s1
+		if ft != nil {
+			entry = e.merge([]*State{s1, ft})
+			ft = nil
+		}
+		body := cc.Body
+		falls := false
+		if n := len(body); n > 0 {
+			if br, ok := body[n-1].(*ast.BranchStmt); ok && br.Tok == token.FALLTHROUGH {
+				body = body[:n-1]
+				falls = true
+			}
+		}
+		res := e.execBlock(body, entry)
+		if falls {
+			ft = res
+		} else {
+			outs = append(outs, res)
+		}
 	}
 	if deflt != nil {
-		outs = append(outs, e.execBlock(deflt.Body, rest))
+		dentry := rest
+		if ft != nil {
+			if clauses[len(clauses)-1] != ast.Stmt(deflt) {
+				e.fail(s.Pos(), "fallthrough into a default clause that is not last")
+			}
+			dentry = e.merge([]*State{rest, ft})
+			ft = nil
+		}
+		outs = append(outs, e.execBlock(deflt.Body, dentry))
 	} else {
 		outs = append(outs, rest)
+		if ft != nil {
+			outs = append(outs, ft)
+		}
 	}
 	e.popLoop()
 	outs = append(outs, lf.breaks...)
@@ -1075,6 +1108,26 @@ func (e *Engine) execFor(s *ast.ForStmt, st *State, label string) *State {
 	lf := e.pushLoop(label, true)
 	end := e.execBlock(s.Body.List, body)
 	e.popLoop()
+	if os.Getenv("GOVC_SPLIT") != "" && s.Post == nil && ls != nil {
+		// debugging aid: check the invariants separately for every way of reaching the loop end
+		for i, cs := range append([]*State{end}, lf.continues...) {
+			if cs == nil {
+				continue
+			}
+			for j, inv := range ls.Invariants {
+				e.spec++
+				v := e.ev(inv.Expr, cs)
+				e.spec--
+				e.obligeNamed(cs, fmt.Sprintf("split-inv.%d#%d@%d[%s]", ord, j, i, cs.tag), "split", v.T, s.Pos(), "debug split", "")
+			}
+			if v0 != "" {
+				e.spec++
+				v1 := e.ev(ls.Decreases.Expr, cs).T
+				e.spec--
+				e.obligeNamed(cs, fmt.Sprintf("split-dec.%d@%d[%s]", ord, i, cs.tag), "split", and(e.le(e.izero(), v0), e.lt(v1, v0)), s.Pos(), "debug split", "")
+			}
+		}
+	}
 	end = e.merge(append([]*State{end}, lf.continues...))
 	if end != nil && s.Post != nil {
 		end = e.exec(s.Post, end)
